@@ -1,6 +1,7 @@
 package eval
 
 import (
+	"fmt"
 	"ti/base"
 	"ti/context"
 	"ti/parser"
@@ -24,7 +25,13 @@ func (d *Comma) Evaluation(
 ) (err error) {
 
 	var tArray []*base.T
-	tArray = append(tArray, p.GetLastEvaluatedTPointer().(*base.T))
+
+	firstT, ok := p.GetLastEvaluatedTPointer().(*base.T)
+	if !ok {
+		return fmt.Errorf("syntax error")
+	}
+
+	tArray = append(tArray, firstT)
 
 	for {
 		nextT, err := p.Read()
@@ -53,7 +60,12 @@ func (d *Comma) Evaluation(
 			return err
 		}
 
-		tArray = append(tArray, p.GetLastEvaluatedTPointer().(*base.T))
+		evaluatedT, ok := p.GetLastEvaluatedTPointer().(*base.T)
+		if !ok {
+			return fmt.Errorf("syntax error")
+		}
+
+		tArray = append(tArray, evaluatedT)
 
 		nextT, err = p.Read()
 		if err != nil {
